@@ -528,6 +528,12 @@ pub fn check_main(args: &[String]) -> i32 {
         out_lines.push(format!("  oracle=O-total key=no-return index={} : evaluation did not return ({})", i, why));
     }
 
+    if let Ok(path) = std::env::var("VERIF_DUMP_HASHES") {
+        // per-index trace / observation hashes, for diffing executions against each other
+        let mut out = String::new();
+        for (i, (th, oh)) in agg.hashes.iter() { out.push_str(&format!("{} {:016x} {:016x}\n", i, th, oh)); }
+        let _ = std::fs::write(path, out);
+    }
     let wall = t_start.elapsed().as_secs_f64();
     // evidence
     let fault_kinds: BTreeMap<String, u64> = agg.counters.iter().filter(|(k, _)| is_fault_key(k)).map(|(k, v)| (k.clone(), *v)).collect();
